@@ -16,6 +16,7 @@ import (
 	"fmt"
 	"os"
 	"path/filepath"
+	"runtime"
 	"runtime/debug"
 	"sort"
 	"strconv"
@@ -632,4 +633,77 @@ func Note(format string, args ...interface{}) {
 	mu.Lock()
 	stats.Notes = append(stats.Notes, fmt.Sprintf(format, args...))
 	mu.Unlock()
+}
+
+// ---- watchdogs that tell a deadlock from a slow machine ---------------------------------------
+
+// libraryGoroutines parses a full goroutine dump and returns the scheduler state of every
+// goroutine that has a frame in the library under test.
+func libraryGoroutines() []string {
+	buf := make([]byte, 1<<20)
+	n := runtime.Stack(buf, true)
+	var states []string
+	for _, block := range strings.Split(string(buf[:n]), "\n\n") {
+		if !strings.Contains(block, "github.com/biogo/biogo/") {
+			continue
+		}
+		head := block
+		if i := strings.IndexByte(block, '\n'); i >= 0 {
+			head = block[:i]
+		}
+		a, b := strings.IndexByte(head, '['), strings.IndexByte(head, ']')
+		if a < 0 || b < a {
+			continue
+		}
+		st := head[a+1 : b]
+		if i := strings.IndexByte(st, ','); i >= 0 {
+			st = st[:i] // "chan receive, 2 minutes"
+		}
+		states = append(states, st)
+	}
+	return states
+}
+
+func blockedState(st string) bool {
+	switch {
+	case strings.HasPrefix(st, "chan "), st == "select", st == "select (no cases)",
+		strings.HasPrefix(st, "semacquire"), strings.HasPrefix(st, "sync."):
+		return true
+	}
+	return false // running, runnable, syscall, IO wait, sleep (a harness hold), GC ...
+}
+
+// ConfirmDeadlock is called when a run has not finished within its first, short bound. It decides
+// whether the run is deadlocked or merely slow (a busy machine, a slow disk): if in three samples one
+// second apart every goroutine that is executing library code is blocked on a channel or a lock - none
+// is running, runnable, in a system call or waiting for I/O - it is a deadlock and true is returned at
+// once. Otherwise it keeps waiting, looking again every two seconds, until finished() reports that
+// the run has ended (false: not a deadlock) or limit has passed (true).
+func ConfirmDeadlock(limit time.Duration, finished func() bool) bool {
+	deadline := time.Now().Add(limit)
+	streak := 0
+	for time.Now().Before(deadline) {
+		if finished() {
+			Count("slow-run-finished-after-the-first-watchdog-bound", 1)
+			return false
+		}
+		sts := libraryGoroutines()
+		all := len(sts) > 0
+		for _, st := range sts {
+			if !blockedState(st) {
+				all = false
+			}
+		}
+		if all {
+			streak++
+			if streak >= 3 {
+				return !finished()
+			}
+			time.Sleep(time.Second)
+			continue
+		}
+		streak = 0
+		time.Sleep(2 * time.Second)
+	}
+	return !finished()
 }
